@@ -147,6 +147,19 @@ func (m *stallMonitor) during(t0, t1 int64) time.Duration {
 	return time.Duration(worst)
 }
 
+// total: the sum of the stalls that overlapped [t0, t1].
+func (m *stallMonitor) total(t0, t1 int64) time.Duration {
+	m.mu.Lock()
+	defer m.mu.Unlock()
+	var sum int64
+	for _, s := range m.stalls {
+		if s[0] >= t0 && s[0]-s[1] <= t1 {
+			sum += s[1]
+		}
+	}
+	return time.Duration(sum)
+}
+
 // ---- behaviours
 
 type behaviour struct {
@@ -443,6 +456,12 @@ func (e *c09Env) judge(res c09Result, caseNo int64, phase string, queuePos int) 
 	// queuePos: number of calls sharing the fixed port in this round minus one (any of them may be served last)
 	bound := e.T*time.Duration(queuePos+1) + e.slack
 	if res.elapsed > bound {
+		// the slack is generous for a machine that runs this check; on one that is so oversubscribed that the process is held up for
+		// long stretches (the 2 ms heartbeat oversleeping by a good part of the overrun) a late return says nothing about the library
+		if st := c09Stalls.total(res.t0, res.t1); res.t0 != 0 && st > 200*time.Millisecond && st > (res.elapsed-bound) && res.elapsed < bound+2*time.Second {
+			c.Res.Inconcl(fmt.Sprintf("%s over %s returned after %v (bound %v) while the host kept the process from running for %v in all (heartbeat oversleeps of 15 ms and more): not judged", b.name, b.path, res.elapsed, bound, st))
+			return
+		}
 		c.Res.Violate(key+":late-return", fmt.Sprintf("%s over %s: the call returned after %v, the bound is %v (T=%v, position %d in the port queue, slack %v)", b.name, b.path, res.elapsed, bound, e.T, queuePos, e.slack), w, caseNo)
 		return
 	}
@@ -1102,6 +1121,7 @@ func c09SlowConnect(c *Ctx, caseNo int64, serial uint32) {
 		}
 	}()
 	start := time.Now()
+	t0mono := farm.Mono()
 	done := make(chan rm.Outcome, 1)
 	go func() {
 		out, _ := adapter.SafeCall(u, "GetEvent", serial, rm.Vals{"Index": rm.UVal(rm.U32, 7)}, adapter.Aux{})
@@ -1118,6 +1138,8 @@ func c09SlowConnect(c *Ctx, caseNo int64, serial uint32) {
 		switch {
 		case out.Err == "":
 			c.Res.Violate("C09:tcp:tcp-slow-connect:unexpected-success", "a TCP peer that never answered: the call succeeded", w, caseNo)
+		case elapsed > T+1500*time.Millisecond && elapsed < T+2500*time.Millisecond && c09Stalls.total(t0mono, farm.Mono()) > elapsed-T-time.Second:
+			c.Res.Inconcl(fmt.Sprintf("slow TCP connect: the call returned after %v (T=%v) while the host kept the process from running for %v in all: not judged", elapsed.Round(time.Millisecond), T, c09Stalls.total(t0mono, farm.Mono())))
 		case elapsed > T+1500*time.Millisecond:
 			c.Res.Violate("C09:tcp:tcp-slow-connect:late-return", fmt.Sprintf("TCP connection established only on the second SYN retransmission (about 3 s), peer never answers: the call returned after %v, the bound is T + 1.5 s (T=%v) - the time spent connecting is part of the timeout", elapsed.Round(time.Millisecond), T), w, caseNo)
 		}
